@@ -17,7 +17,7 @@ from .. import access as AC
 from .. import cfg as C
 from .. import effects as E
 from .. import partition_step as PS
-from ..model import get_arg, is_self_attr, method_name, strip_doc
+from ..model import call_name, get_arg, is_self_attr, method_name, strip_doc
 from ..report import AnalysisError, norm_src
 from . import _partition
 
@@ -619,7 +619,106 @@ def import_eval(ctx):
     ctx.shortfalls += tmp.shortfalls
 
 
+def import_wrappers(ctx):
+    """POO / GPO (PCT, VPCT) must be able to build a learner for every base algorithm their constructors accept: the
+    family-coverage obligation of C09 / C10, re-reported (a missing branch leaves None where a learner is expected)."""
+    from ..report import Ctx
+    from . import c09
+    for cls in ("POO", "GPO"):
+        tmp = Ctx(ctx.prop, ctx.tier, ctx.seed, ctx.model)
+        try:
+            c09.check_learner_construction(tmp, cls, "R01-WRAP")
+        except AnalysisError as ex:
+            ctx.violation("R01-WRAP", ctx.model.cls(cls).file, "%s.pull" % cls, "learner construction", str(ex))
+            continue
+        for o in tmp.obligations:
+            if "constructor branch" in o.get("construct", o.get("what", "")):
+                ctx.obligations.append(dict(o, rule="R01-WRAP"))
+        for f in tmp.findings:
+            if "constructor branch" in f.construct:
+                ctx.add_finding("R01-WRAP", f.file, f.qual, f.construct, "no constructor branch for some accepted base algorithm (%s): the learner slot stays "
+                                "empty and the next pull fails" % f.why, f.line)
+
+
+def check_orderings(ctx):
+    """R01-ORDER: max/min/sorted/.sort() without key= over tuples that contain a cell (or any loop element) itself: on a tie in
+    the leading components Python compares the cells, which define no ordering -> TypeError for tied rewards."""
+    model = ctx.model
+    n = 0
+    for c in model.classes.values():
+        if not c.file.startswith(("PyXAB/algos/", "PyXAB/partition/")):
+            continue
+        for fn in c.methods.values():
+            qual = "%s.%s" % (c.name, fn.name)
+            for call in ast.walk(fn):
+                if not isinstance(call, ast.Call):
+                    continue
+                name = call_name(call)
+                is_sort = isinstance(call.func, ast.Attribute) and call.func.attr == "sort"
+                if not (name in ("max", "min", "sorted", "np.max", "np.min", "np.argmax", "np.argmin", "np.sort", "np.argsort") or is_sort):
+                    continue
+                if any(k.arg == "key" for k in call.keywords):
+                    continue
+                arg = call.func.value if is_sort else (call.args[0] if call.args else None)
+                if arg is None:
+                    continue
+                # resolve a local built by a comprehension / list display just before
+                comps = []
+                if isinstance(arg, (ast.ListComp, ast.GeneratorExp, ast.SetComp)):
+                    comps.append(arg)
+                elif isinstance(arg, ast.Name):
+                    for s in ast.walk(fn):
+                        if isinstance(s, ast.Assign) and any(isinstance(t, ast.Name) and t.id == arg.id for t in s.targets) and \
+                                isinstance(s.value, (ast.ListComp, ast.GeneratorExp)):
+                            comps.append(s.value)
+                        if isinstance(s, ast.Expr) and isinstance(s.value, ast.Call) and isinstance(s.value.func, ast.Attribute) and \
+                                s.value.func.attr == "append" and norm_src(s.value.func.value) == arg.id and s.value.args and \
+                                isinstance(s.value.args[0], ast.Tuple):
+                            comps.append(s.value.args[0])
+                for comp in comps:
+                    n += 1
+                    elt = comp.elt if not isinstance(comp, ast.Tuple) else comp
+                    if not isinstance(elt, ast.Tuple):
+                        ctx.ob("R01-ORDER", True, c.file, qual, norm_src(call)[:80], "elements are not tuples", call.lineno, nontrivial=False)
+                        continue
+                    elem_vars = set()
+                    if not isinstance(comp, ast.Tuple):
+                        for g in comp.generators:
+                            it = g.iter
+                            if isinstance(it, ast.Call) and call_name(it) == "range":
+                                continue
+                            if isinstance(it, ast.Call) and call_name(it) == "enumerate" and isinstance(g.target, ast.Tuple) and len(g.target.elts) == 2:
+                                elem_vars |= {x.id for x in ast.walk(g.target.elts[1]) if isinstance(x, ast.Name)}
+                                continue
+                            elem_vars |= {x.id for x in ast.walk(g.target) if isinstance(x, ast.Name)}
+                    else:
+                        # appended tuple inside a for loop: the loop's element variables
+                        p = model.up(comp)
+                        while p is not None and p is not fn:
+                            if isinstance(p, ast.For) and not (isinstance(p.iter, ast.Call) and call_name(p.iter) == "range"):
+                                tg = p.target.elts[1] if isinstance(p.iter, ast.Call) and call_name(p.iter) == "enumerate" and \
+                                    isinstance(p.target, ast.Tuple) and len(p.target.elts) == 2 else p.target
+                                elem_vars |= {x.id for x in ast.walk(tg) if isinstance(x, ast.Name)}
+                            p = model.up(p)
+                    bad = [e for e in elt.elts[1:] + elt.elts[:1] if isinstance(e, ast.Name) and e.id in elem_vars]
+                    bad = [e for e in bad if e is not elt.elts[0] or len(elt.elts) == 1] or ([elt.elts[0]] if isinstance(elt.elts[0], ast.Name) and
+                                                                                             elt.elts[0].id in elem_vars else [])
+                    ctx.ob("R01-ORDER", not bad, c.file, qual, norm_src(call)[:80],
+                           "tuples of numbers only" if not bad else
+                           "orders tuples that contain the element '%s' itself: when the leading components tie (equal rewards) the cells are "
+                           "compared and `<` between cells raises TypeError" % norm_src(bad[0]), call.lineno)
+    ctx.extra["ordering_calls_examined"] = n
+    # fixture: the rule must fire on the known-bad shape
+    fx = ast.parse("def f(nodes):\n    return max([(n.m(), n) for n in nodes])[1]\n").body[0]
+    comp = fx.body[0].value.value.args[0]
+    ev = {x.id for g in comp.generators for x in ast.walk(g.target) if isinstance(x, ast.Name)}
+    if not [e for e in comp.elt.elts if isinstance(e, ast.Name) and e.id in ev]:
+        raise AnalysisError("R01-ORDER self-check fixture no longer matches")
+
+
 def run(ctx):
+    import_wrappers(ctx)
+    check_orderings(ctx)
     check_attr(ctx)
     check_prov(ctx)
     check_sample_uniform(ctx)
